@@ -227,6 +227,41 @@ theorem C08_session_complete (evs : List Um.Session.Ev) :
   exact complete_spec s (run_inv evs Um.Session.init Inv_init) hne hall
 
 open Um.Session in
+/-- **C08_session_flush** — no reply byte is left behind.  For every poll-structured run of a session
+(between polls: senders completed / dropped; a poll = `nreq` requests decoded, the pop loop, the
+write stage while the socket accepts `cap` more packets, for arbitrary `nreq`, `cap` and any
+backpressure boundary):
+1. what is in the write buffer followed by what is queued is still the owed replies of requests
+   `0 .. k-1` in order, and `flushed ≤ |written|`: the socket holds a prefix of them;
+2. whenever a reply is still in the write buffer or still queued, the latest poll ended in a
+   `poll_flush` / `poll_ready` that returned `Pending`, i.e. the session is registered for socket
+   writability and will run the flush again — it never parks with unflushed replies;
+3. so a session that is not waiting for the socket has put every popped reply on the socket;
+4. and a poll during which the socket has room completes the flush (live session). -/
+theorem C08_session_flush (evs : List PEv) :
+    let s := prun Um.Session.init evs
+    (∃ k, k ≤ s.nextReq ∧ s.written ++ s.replies = (List.range' 0 k).map (Um.Session.owed s.pairs)) ∧
+    s.flushed ≤ s.written.length ∧
+    ((s.flushed < s.written.length ∨ s.replies ≠ []) → s.armed = true) ∧
+    (s.armed = false → s.flushed = s.written.length ∧ s.replies = []) ∧
+    (s.ended = false → ∀ cap, s.nextReq ≤ cap →
+      (pollStep s 0 cap).flushed = (pollStep s 0 cap).written.length ∧ (pollStep s 0 cap).replies = []) := by
+  intro s
+  have hI := prun_inv evs Um.Session.init Inv_init
+  have hF := prun_flushOk evs Um.Session.init FlushOk_init
+  refine ⟨⟨popped s, hI.le, hI.out⟩, hF.1, hF.2, ?_, ?_⟩
+  · intro ha
+    have h1 := hF.1
+    have h2 := hF.2
+    by_cases hlt : s.flushed < s.written.length
+    · have := h2 (Or.inl hlt); rw [ha] at this; exact absurd this (by simp)
+    · by_cases hr : s.replies = []
+      · exact ⟨Nat.le_antisymm h1 (Nat.le_of_not_lt hlt), hr⟩
+      · have := h2 (Or.inr hr); rw [ha] at this; exact absurd this (by simp)
+  · intro he cap hcap
+    exact pollStep_all s cap hI hF he hcap
+
+open Um.Session in
 /-- **C08_send_once.**  `CmdReplySender`: whatever sequence of `send` calls is made before the
 sender is dropped, the receiver resolves to the *first* value sent, or to `Dropped` if there was
 none; every later `send` is refused. -/
@@ -302,5 +337,15 @@ example :
       [.request, .request, .request, .send 2 (.ok 12), .pump, .dropSender 1, .pump, .send 0 (.ok 10),
        .send 0 (.ok 99), .pump, .writeOne, .writeOne, .writeOne]).written =
       [.data 10, .cmdErr .dropped, .data 12] := by decide
+
+/-- write backpressure: a socket that takes one packet per poll; the flush stays armed until the last
+reply is out, then the session is quiescent with everything on the socket -/
+example :
+    let evs : List Um.Session.PEv :=
+      [.poll 3 0, .send 0 (.ok 10), .send 1 (.ok 11), .send 2 (.ok 12), .poll 0 1]
+    (Um.Session.prun Um.Session.init evs).flushed = 1 ∧
+    (Um.Session.prun Um.Session.init evs).armed = true ∧
+    (Um.Session.prun Um.Session.init (evs ++ [.poll 0 1, .poll 0 1])).flushed = 3 ∧
+    (Um.Session.prun Um.Session.init (evs ++ [.poll 0 1, .poll 0 1])).armed = false := by decide
 
 end Um.C08
